@@ -56,6 +56,14 @@ def rule_guards(ctx):
                     oc = o
                     full = oc.kind == 'call' and 'DateTime' in (oc.term['fn'].get('self') or '') and 'timestamp' not in var
                     found = ('date>=done' if full else 'date>=done@seconds', var)
+        if found is None:
+            # the comparison may live in a small bool helper (fn same_tag(tag, etag) -> bool { tag.trim() == etag })
+            for kind, g in (('etag-equal', G('etag equal', cmp=('etag',), cmp_want={'Equal'})),
+                            ('star', G('star', cmp=('const("*")',), cmp_want={'Equal'}))):
+                e, sw = g.edges(b)
+                if sw and e and b.path_avoiding(s.bb, avoid_edges=e) is None:
+                    found = (kind, 'via helper')
+                    break
         ctx.check(found is not None, 'K4', 'maybe_not_modified:304-guarded:%s' % (found[0] if found else s.loc()),
                   '304 at %s only on %s' % (s.loc(), found[0] if found else '?'),
                   'a 304 Not Modified can be produced at %s without a matching validator' % s.loc(), loc=s.loc())
